@@ -101,6 +101,14 @@ class _Exprs(ast.NodeTransformer):
 
     def visit_IfExp(self, node: ast.IfExp) -> ast.AST:
         self.generic_visit(node)
+        # d[k] if k in d else x  ->  d.get(k) / d.get(k, x)   (pure d, k, x; the mapping protocol of dict)
+        t = node.test
+        if isinstance(t, ast.Compare) and len(t.ops) == 1 and isinstance(t.ops[0], (ast.In, ast.NotIn)) and _pure(t.left) and _pure(t.comparators[0]) and _pure(node.orelse) and _pure(node.body):
+            hit, miss = (node.body, node.orelse) if isinstance(t.ops[0], ast.In) else (node.orelse, node.body)
+            if isinstance(hit, ast.Subscript) and not isinstance(hit.slice, ast.Slice) and ast.dump(hit.value) == ast.dump(t.comparators[0]) and ast.dump(hit.slice) == ast.dump(t.left) \
+                    and (_literal(miss) or _chain(miss)):
+                args = [t.left] + ([] if isinstance(miss, ast.Constant) and miss.value is None else [miss])
+                return ast.copy_location(ast.Call(func=ast.Attribute(value=t.comparators[0], attr="get", ctx=ast.Load()), args=args, keywords=[]), node)
         if _pure(node.test) and ast.dump(node.test) == ast.dump(node.body):
             return ast.copy_location(ast.BoolOp(op=ast.Or(), values=[node.body, node.orelse]), node)
         return node
